@@ -148,7 +148,7 @@ CLAIMED = {
         "variance of the window's simple returns; and whatever interleaving of appends for whatever assets/lookbacks happened, the window "
         "for (asset, N) is a function of that asset's own stream and N only. Tied to /repo by the real Momentum/SMA/Volatility signals on "
         "random interleaved positive streams (after every append) and, for long lookbacks, by the definitions in exact arithmetic.",
-   note=TRUST + "sqrt is applied outside the model (the model carries the variance). The session cadence (one observation per business day, empty window on late entry) is covered by the backtest correspondence. Model comparison is limited to lookbacks <= 5 (exact rationals grow with the window); longer lookbacks are compared with the definitions only.",
+   note=TRUST + "sqrt is applied outside the model (the model carries the variance). The session cadence is proved per event (signals change only at market closes; one close = one observation per tracked asset, new members tracked from then on with an empty window) and exercised on whole runs by the backtest correspondence. Model comparison is limited to lookbacks <= 5 (exact rationals grow with the window); longer lookbacks are compared with the definitions only.",
    design="7/C16", technique="Coq proof (list suffix lemmas, telescoping product by induction, invariant over append sequences) + correspondence check"),
  'C17': dict(
    text="Machine-checked theorems (props/C17.v): cum_t == e_t/e_0; aggregates over any calendar key compound to the total; drawdown == "
@@ -162,8 +162,7 @@ CLAIMED = {
    text="Machine-checked theorems (props/C19.v): dynamic-universe membership iff an entry time e <= t exists (inclusive; no entry = never), "
         "static universe = its list, the universe-driven alpha weights exactly the members, fixed-weight optimiser = identity, equal-weight "
         "optimiser = scale/N each summing to the scale on the same keys. Tied to /repo by the real universes queried around every entry "
-        "instant and the real optimisers on random dictionaries; the session-level part (first weight/order/position at the first rebalance "
-        "at or after entry) is exercised by the backtest correspondence.",
+        "instant and the real optimisers on random dictionaries; at a rebalance every member gets the signal weight and a non-member appears only if already held, with weight zero; whole sessions (first weight/order/position at the first rebalance at or after entry) are exercised by the backtest correspondence.",
    note=TRUST + "Session-level statements are covered by the backtest model/correspondence (C07/C08/C14 machinery), see DESIGN.md.",
    design="7/C19", technique="Coq proof (list membership / field arithmetic) + model/implementation correspondence check"),
 }
